@@ -578,22 +578,49 @@ def interrupted_creation_is_recoverable(ctx, rid):
     queries = [i for i in ba.all_calls() if any(re.fullmatch(r"rusqlite::(Connection|Transaction|Statement)(<.*>)?::(query_row|query|query_map|exists|prepare|pragma_query_value|query_row_and_then)|rusqlite::Connection::query_row", p) for p in callee_paths(I.blocks[i]["term"]))
                and ba.path([i], [sw], incl=False) is not None and not ba.edge_dominates((sw, side), i)]
     tnt = taint(I, seeds={I.blocks[i]["term"]["dest"]["l"] for i in queries}, mode="derived") if queries else set()
-    chain = set(ba.ref_chain(d)) | {d}
-    # follow plain copies / negations of the tested local back
-    seen = set()
-    work = list(chain)
-    while work:
-        x = work.pop()
-        if x in seen:
-            continue
-        seen.add(x)
-        for dd in ba.defs.get(x, []):
-            if dd[0] == "stmt":
-                from core import rvalue_places
-                for pl in rvalue_places(dd[3]):
-                    if pl is not None:
-                        work.append(pl["l"])
-    ok = any(x in tnt for x in seen)
+    from core import rvalue_places
+
+    def data_roots(l):
+        seen_, work_ = set(), list(set(ba.ref_chain(l)) | {l})
+        while work_:
+            x = work_.pop()
+            if x in seen_:
+                continue
+            seen_.add(x)
+            for dd in ba.defs.get(x, []):
+                if dd[0] == "stmt":
+                    for pl in rvalue_places(dd[3]):
+                        if pl is not None:
+                            work_.append(pl["l"])
+        return seen_
+
+    def depends_on_query(l, depth=3, visited=None):
+        visited = visited if visited is not None else set()
+        if l in visited or depth < 0:
+            return False
+        visited.add(l)
+        roots = data_roots(l)
+        if any(x in tnt for x in roots):
+            return True
+        # control dependence: the value is a constant / variant chosen by an earlier test - look at what that test reads
+        def_blocks = {dd[1] for x in roots for dd in ba.defs.get(x, []) if dd[0] == "stmt" and dd[3]["k"] in ("agg", "use") and not [pl for pl in rvalue_places(dd[3]) if pl is not None]}
+        for s2 in sorted(ba.live):
+            if s2 == sw or not ba.dominates(s2, sw):
+                continue
+            t2 = I.blocks[s2]["term"]
+            if t2["t"] != "switch":
+                continue
+            tgts = {tg for _, tg in t2["arms"]} | {t2["otherwise"]}
+            split = {tg: {b_ for b_ in def_blocks if ba.edge_dominates((s2, tg), b_)} for tg in tgts}
+            if sum(1 for v in split.values() if v) >= 2 or (sum(1 for v in split.values() if v) == 1 and len(def_blocks) >= 2):
+                d2 = op_local(t2["discr"])
+                es2 = ba.enum_switch(s2)
+                if es2 and not ba.bool_switch(s2):
+                    d2 = es2[0]["l"]
+                if d2 is not None and depends_on_query(d2, depth - 1, visited):
+                    return True
+        return False
+    ok = depends_on_query(d)
     ctx.ob(rid, "%s|creation-decided-on-database-content" % I.key, ok, where=ctx.where(I, sw),
            detail="the create/check decision also derives from a query of the database" if ok else
            "the create/check decision rests on the file's existence only: after a kill between the creation of the file and the commit of the schema every later run fails with `no such table: Schema`")
@@ -1015,14 +1042,14 @@ def relpath_is_componentwise(ctx, rid):
     ba = BA.of(R)
     comp = set(ba.calls(r"std::path::Path::(components|strip_prefix|ancestors|iter|starts_with)"))
     oks = set(common.ok_returns(R)) if hasattr(common, "ok_returns") else set(ba.returns())
-    okb = set(common.blocks_with_agg(R, r"core::result::Result", "Ok"))
+    okb = set(common.returned_ok_blocks(R)) if hasattr(common, "returned_ok_blocks") else set(common.blocks_with_agg(R, r"core::result::Result", "Ok"))
     if not ctx.floor(rid, "component walks in relpath", len(comp), 1):
         return
     p_ = ba.path([0], okb or oks, avoid=comp, incl=True)
-    byte_level = [i for i in ba.all_calls() if any(re.fullmatch(r"core::slice::<impl \[T\]>::(strip_prefix|starts_with)|core::str::<impl str>::(strip_prefix|starts_with)", q) for q in callee_paths(R.blocks[i]["term"]))]
-    ctx.ob(rid, "%s|result-after-component-walk" % R.key, p_ is None and not byte_level, where=ctx.where(R, (byte_level or (p_ or [0]))[-1]) if (byte_level or p_) else R.span,
-           detail="every Ok result follows a component-wise comparison" if p_ is None and not byte_level else
-           "relpath can answer from a byte / string prefix test without walking components: sibling directories one of whose names is a prefix of the other are confused")
+    ctx.ob(rid, "%s|result-after-component-walk" % R.key, p_ is None, where=ctx.where(R, p_[-1]) if p_ else R.span,
+           detail="every Ok result follows a component-wise comparison" if p_ is None else
+           "relpath can answer without walking the components of the two paths (a byte / string prefix shortcut): sibling directories one of whose names is a prefix of the other are confused",
+           witness=p_)
 
 
 # ------------------------------------------------------------------------------------------------
